@@ -26,6 +26,7 @@ import (
 
 // pair is a two-client world with a number of ledger channels between them.
 type pair struct {
+	midClose     func()                     // C03: runs between a sub-channel's final update and its settlement
 	craftedFunds map[client.ProposalID]bool // C08: crafted proposals that are invalid only because of the funds they ask for
 	eager        bool                       // C06: updates may start before the responder's Accept has returned
 	s            *world.Sim
